@@ -7,9 +7,9 @@ it did not initialise.  Proved here, for every input: the MSZIP decoder state do
 it at all (its window is cleared since f814fba, everything else is written before it is read),
 and therefore extraction from stored and MSZIP folders of any cabinet, well-formed or not, is the
 same function of the input whatever fresh memory contained.  For Quantum, LZX and KWAJ-LZH the
-models still carry the parameter in places the C provably (by inspection, not yet by theorem)
-never reads before writing; those are covered by the two-fill oracle, MemorySanitizer and model
-agreement per fill byte.
+models still carry the parameter in places the C never reads before writing; that is proved, by
+two-run simulation, in `Proofs/Props/C11Decoders.lean` (`C11_lzh_fill_independent`,
+`C11_lzx_fill_independent`, `C11_qtm_fill_independent`).
 -/
 namespace MsPack.C11
 open MsPack MsPack.Cab
